@@ -230,9 +230,44 @@ def extra_checks(tier, seed):
         if not ok:
             viol.append({"unit": "normalize_type", "clause": "idempotent", "witness": f"{tp!r}"[:160],
                          "w": {"native_outcome": detail[:300], "input": repr(tp)[:200]}})
+    # ---- canonical member order of a union does not depend on the written order, WITHOUT the help of normalize_type's lru_cache (typing
+    # makes Union[A, B] == Union[B, A], so the cached public function answers the second spelling with the first result; the cache is
+    # missed for hints that are not hashable — Annotated with a list as metadata — and after eviction).  Every permutation of a pool of
+    # pairwise different members, normalised by a NEW TypeNormalizer each, must give equal forms with equal hashes.
+    import contextvars
+    import decimal
+    t = typing
+    from adaptix._internal.type_tools.normalize_type import ImplicitParamsGetter, TypeNormalizer
+    order_pools = [
+        ("look-alike literals inside members", [t.List[t.Literal[1]], t.List[t.Literal["1"]]]),
+        ("look-alike literal members of a tuple", [t.Tuple[t.Literal["None"], int], t.Tuple[None, int]]),
+        ("same-named classes of two modules", [decimal.Context, contextvars.Context]),
+        ("same-named classes inside members", [t.List[decimal.Context], t.List[contextvars.Context], int]),
+        ("plain members", [int, str, bytes]),
+        ("nested generic members", [t.Dict[str, int], t.Dict[int, str], t.List[int]]),
+        ("bool / int literal look-alikes", [t.List[t.Literal[0]], t.List[t.Literal[False]], t.List[t.Literal["0"]]]),
+    ]
+    n_perm = 0
+    for why, pool in order_pools:
+        forms = []
+        for perm in itertools.permutations(pool):
+            n_perm += 1
+            try:
+                forms.append((perm, TypeNormalizer(ImplicitParamsGetter()).normalize(t.Union[perm])))
+            except Exception as e:  # noqa: BLE001
+                forms.append((perm, f"{type(e).__name__}: {e}"))
+        p0, f0 = forms[0]
+        for perm, f in forms[1:]:
+            if isinstance(f, str) or isinstance(f0, str) or f != f0 or hash(f) != hash(f0):
+                viol.append({"unit": "_UnionNormType._order_args", "clause": "order-independent", "witness": f"{why}: {perm!r}"[:160].replace("typing.", ""),
+                             "w": {"input": f"Union{list(p0)!r} vs Union{list(perm)!r} (each normalised by a new TypeNormalizer: no lru_cache)"[:300],
+                                   "native_outcome": f"{f0!r} vs {f!r}"[:300]}})
+                break
     return [{
         "obligations": 0, "discharged": 0, "violations": viol,
-        "bounded": [{"unit": "TypeNormalizer.normalize on live typing objects",
+        "bounded": [{"unit": "_UnionNormType._order_args / _make_orderable (canonical member order without the lru_cache)",
+                     "bound": f"{len(order_pools)} pools of pairwise different members incl. look-alikes, all {n_perm} permutations, one new TypeNormalizer each"},
+                    {"unit": "TypeNormalizer.normalize on live typing objects",
                      "bound": f"hint grammar over {len(atoms)} atoms, unions of 2-3 members, literals over {len(lits)} confusable "
                               f"values: {n_eq} equal-form pairs, {n_ne} distinct-form pairs, {n_id} idempotence checks"},
                     {"unit": "loaders / dumpers / predicates of one shared retort for the same pairs",
